@@ -60,14 +60,7 @@ ASSUMPTIONS = [
 
 # findings of this part that are not (yet) in known_findings.json; same matching rule as vf.match_known.  An entry with the
 # same match in known_findings.json takes precedence (run.known_match is consulted first).
-LOCAL_KNOWN = [
-    {"id": "G1", "property": "C06",
-     "match": {"part": "msgb", "kind": "short-write-loses-octets"},
-     "what": "osmocon handle_sercomm_write() pulls up to 256 octets out of the sercomm transmitter and hands them to ONE write(); "
-             "when write() on the (O_NONBLOCK) serial fd takes fewer octets or fails with EAGAIN the rest is only reported "
-             "(perror(\"short write\")) and never sent: the frame in transmission is truncated, its message is lost and the next "
-             "frame is swallowed by the receiver's open frame; Lean: Props/C06Osmocon.write_lossless_full_fails, short_write_corrupts_next"},
-]
+LOCAL_KNOWN = []      # the finding of this part (short write) is recorded in /verif/known_findings.json as F23
 
 
 def report(run, w):
